@@ -173,6 +173,18 @@ CHECKS['C06'] = dict(
          'the exactly diagonal covariance family by the sign-invariant pairwise-product relation.',
     design_ref='4 (C06)', technique='TLA+/TLC model checking + exhaustive spec-to-code replay + trace validation',
     note=_NOTE + ' PCA of general waveforms is numerical linear algebra and is not decided.')
+CHECKS['C04'] = dict(
+    text='Dataset.tla: TLC enumerates the whole configuration lattice (KiloSort / ALF names x presence of '
+         'each optional file x one of four items present under both names: 11.5k configurations), '
+         'transcribes the loader\'s file resolution (KS name before ALF pattern), defaults and the two files '
+         'it may create, and proves SourceOk / TimesOk / LoadFrame. Each configuration (quick: a seeded 3k '
+         'sample) is materialised with random contents ((n,) and (n,1) vectors, four id and time dtypes, '
+         'NaN/inf entries, all-NaN templates, raw data with extra channels, ALF seconds off the sample grid), '
+         'hashed, loaded and hashed again: every listed attribute must equal the file the specification '
+         'names (squeezed, scrubbed only when not memory-mapped) or its documented default, exactly the '
+         'specified files may be created and no pre-existing byte may change; non-monotonic times must raise.',
+    design_ref='4 (C04)', technique='TLA+/TLC model checking of the configuration lattice + exhaustive spec-to-code replay with directory hashing',
+    note=_NOTE + ' Degenerate singleton axes (one template / sample / channel) are not generated because the loader squeezes them.')
 
 NOT_APPLICABLE = {}
 for e in ENGINES:
